@@ -19,7 +19,7 @@ INFO = {
                    "`?`-propagated checks) or re-evaluation at every call site. usize index arithmetic over internal "
                    "buffers (NTT, Lagrange routines, gadget internals) is OUT of scope and skipped (counted). GUARD rules "
                    "additionally require the validation guards of the constructors / encoders / role checks to be "
-                   "present. 'Valid arguments at the extremes are accepted and work' is NOT decided.",
+                   "present. Rational::try_from(f32) refuses special and negative floats; the aggregation-parameter constructor accepts exactly the lengths 1..=2^16 (shared with C20). 'Valid arguments at the extremes are accepted and work' is NOT decided.",
     "trusted_base": ["rustc type checker and MIR construction (nightly)", "std model table in sa/ppa.py",
                      "reviewed exceptions in rules/ppa_reviewed.py", "instance-field invariant table in sa/ppa.py"],
     "assumptions": ["A1: lengths of in-memory objects, usize instance fields and usize accumulators are < 2^56",
